@@ -108,6 +108,17 @@ func NewCtx(parent *Ctx, name string) *Ctx {
 	return &Ctx{Name: name, C: c, cancel: cancel, Parent: parent}
 }
 
+// NewCauseCtx derives a context that will be cancelled with a cause of its own (Err() is still
+// context.Canceled; context.Cause reports the cause).
+func NewCauseCtx(parent *Ctx, name string, cause error) *Ctx {
+	var pc context.Context = context.Background()
+	if parent != nil {
+		pc = parent.C
+	}
+	c, cancel := context.WithCancelCause(pc)
+	return &Ctx{Name: name, C: c, cancel: func() { cancel(cause) }, Parent: parent}
+}
+
 // PreCancelled derives a context that is already cancelled (at the current simulated time).
 func PreCancelled(parent *Ctx, name string) *Ctx {
 	c := NewCtx(parent, name)
@@ -186,6 +197,9 @@ type Src struct {
 	BlockAt int
 	// IgnoreCtx: Next pays no attention to its context (neither at entry nor while it is slow).
 	IgnoreCtx bool
+	// CloseDelay: Close takes this much simulated time.
+	CloseDelay time.Duration
+	CloseRet   []uint64 // event numbers at which Close returned
 	NextInv   []uint64 // event number of every Next invocation
 
 	Pos        int
@@ -287,6 +301,10 @@ func (s *Src) Close() {
 	s.Closed = append(s.Closed, sim.Seq())
 	s.R.Logf("source %s: Close (#%d)", s.Name, len(s.Closed))
 	sim.Yield("src.Close:" + s.Name)
+	if s.CloseDelay > 0 {
+		sim.Sleep(s.CloseDelay, "src.Close-slow:"+s.Name)
+	}
+	s.CloseRet = append(s.CloseRet, sim.Seq())
 }
 
 // WaitDone waits for d of simulated time (d < 0: for ever) or until ctx is done, whichever is
